@@ -179,6 +179,14 @@ type fireRec struct {
 	at      time.Time
 	verdict string // legit | racy | early | stale
 	detail  string
+	// a racy firing (a call that affects the direction was in flight) is re-judged when the call
+	// has returned: it must fit the deadline before the call or the one the call set
+	pending bool
+	old     deadline
+}
+
+func (d deadline) fits(at time.Time) bool {
+	return d.state != dlNone && !at.Before(d.lo) && !at.After(d.hi)
 }
 
 type world struct {
@@ -271,6 +279,7 @@ func (w *world) judgeFire(dir int, at time.Time) {
 	switch {
 	case w.inflight != nil && w.inflight.affects(dir):
 		fr.verdict = "racy"
+		fr.pending, fr.old = true, d
 		fr.detail = fmt.Sprintf("fired at %s while %s was in flight", rel(at), *w.inflight)
 		w.counters["fire_racing_call"]++
 		if w.inflight.isNonZero() && d.state != dlNone {
@@ -546,6 +555,54 @@ func (w *world) end(r *opRun) {
 				}
 				w.dl[dir] = deadline{state: dlNone, via: "Close returned at " + rel(ve)}
 			}
+		}
+	}
+	// firings that raced with this call: the timer that fired was armed either by an earlier
+	// call (then it fits the deadline that was current before this call) or by this call (then it
+	// fits [target, target + clock movement during the call])
+	for dir := 0; dir < 2; dir++ {
+		misfit := -1
+		good := false
+		for i := range w.fires[dir] {
+			f := &w.fires[dir][i]
+			if !f.pending {
+				if f.verdict == "legit" {
+					good = true
+				}
+				continue
+			}
+			f.pending = false
+			cand := deadline{}
+			if o.isNonZero() && o.affects(dir) {
+				cand = deadline{state: dlSet, lo: target, hi: target.Add(ve.Sub(vs))}
+			}
+			switch {
+			case f.old.fits(f.at) || cand.fits(f.at):
+				good = true
+				w.counters["racy_fire_fits_old_or_new_deadline"]++
+			case f.old.state == dlNone && cand.state == dlNone:
+				f.verdict = "stale"
+				f.detail = fmt.Sprintf("the %s timer fired at %s while %s was in flight; there was no %s deadline before the call and the call sets none", dirName[dir], rel(f.at), o, dirName[dir])
+				misfit = i
+			default:
+				f.verdict = "early"
+				if (f.old.state == dlNone || f.at.After(f.old.hi)) && (cand.state == dlNone || f.at.After(cand.hi)) {
+					f.verdict = "late"
+				}
+				before, after := "none", "none"
+				if f.old.state != dlNone {
+					before = rel(f.old.lo)
+				}
+				if cand.state != dlNone {
+					after = fmt.Sprintf("%s..%s", rel(cand.lo), rel(cand.hi))
+				}
+				f.detail = fmt.Sprintf("the %s timer fired at %s while %s was in flight; that is neither the deadline before the call (%s) nor the one the call sets (%s)", dirName[dir], rel(f.at), o, before, after)
+				misfit = i
+			}
+		}
+		if misfit >= 0 && !good && se.Closed && errClass(se.CloseErr) == [2]string{"rtimeout", "wtimeout"}[dir] {
+			f := w.fires[dir][misfit]
+			w.failf("%s-timeout-close dir=%s|closed with %q: %s", f.verdict, dirName[dir], se.CloseErr, f.detail)
 		}
 	}
 	// cancelled / at most one timer per direction
@@ -877,7 +934,15 @@ func build(tier string) []*vkit.Scenario {
 		{{'R', 5}, {'X', 0}}, {{'W', 5}, {'X', 0}}, {{'D', 9}, {'X', 0}}, {{'R', 5}, {'O', 0}, {'R', 5}},
 	} {
 		modes := []ekit.Mode{ekit.LT}
-		if thorough {
+		if l[len(l)-1].kind == 'X' {
+			// level-triggered epoll re-reports the reset socket in a busy loop while the writer is
+			// between "closed = true" and close(fd); those executions only end through the
+			// scheduler's fairness rule (400 steps each). Edge-triggered modes report it once.
+			modes = []ekit.Mode{ekit.ET}
+			if thorough {
+				modes = []ekit.Mode{ekit.ET, ekit.ONESHOT}
+			}
+		} else if thorough {
 			modes = ekit.Modes
 		}
 		for _, m := range modes {
